@@ -152,7 +152,7 @@ def showEv (stores : Bool) : Ev → Option String
   | .oob => some "oob"
   | .ret api c bl => some (s!"ret {api} at={c.at_} ps={c.packetSize} full={b01 c.isFull} empty={b01 c.isEmpty} " ++
       s!"disc={c.eventsDiscarded} seq={c.sequenceNumber} open={b01 c.packetIsOpen} f={b01 c.inTracingSection} " ++
-      s!"en={b01 c.isTracingEnabled} bs={bl}")
+      s!"en={b01 c.isTracingEnabled} bs={bl} uc={b01 c.useCurLastEventTs}")
   | _ => none
 
 /-! ### histories -/
